@@ -56,7 +56,7 @@ theorem ghostEqS_iff_erase (s s' : Sys) : GhostEqS s s' ↔ eraseS s = eraseS s'
 
 /-- arming a crash point (and resetting the per-pass ghost state) changes ghost fields only. -/
 theorem arm_ghost (s : Sys) (budget : Option Nat) : GhostEqS (arm s budget) s :=
-  ⟨⟨rfl, rfl, rfl, rfl, rfl, rfl, rfl, rfl⟩, rfl, rfl, rfl, rfl, rfl, rfl, rfl⟩
+  ⟨⟨rfl, rfl, rfl, rfl, rfl, rfl, rfl, rfl, rfl⟩, rfl, rfl, rfl, rfl, rfl, rfl, rfl⟩
 
 /-- a step `Sys → Sys × α` on two systems: ghost-equal systems afterwards, the same result. -/
 def RelS {α : Type} (x y : Sys × α) : Prop := GhostEqS x.1 y.1 ∧ x.2 = y.2
@@ -101,7 +101,7 @@ theorem setSet_ghost {s s' : Sys} (h : GhostEqS s s') (n : String) (o : Option O
 theorem bumpStore_ghost {w w' : World} (h : GhostEq w w') :
     GhostEq { w with store := { w.store with nextRV := w.store.nextRV + 1 } }
             { w' with store := { w'.store with nextRV := w'.store.nextRV + 1 } } :=
-  ⟨by simp only [h.store], h.writes, h.env, h.events, h.phases, h.phaseEvents, h.remoteRefs, h.applied⟩
+  ⟨by simp only [h.store], h.writes, h.env, h.events, h.phases, h.phaseEvents, h.remoteRefs, h.applied, h.watched⟩
 
 theorem bumpRV_ghost {s s' : Sys} (h : GhostEqS s s') : RelS s.bumpRV s'.bumpRV :=
   ⟨withW_ghost h (bumpStore_ghost h.w), by simp only [Sys.bumpRV, h.w.store]⟩
